@@ -66,8 +66,15 @@ def handle (line : String) : String :=
     | none => "bad-op"
   | ["exprlen", n] =>
     match n.toNat? with
-    | some n => showO toString (exprLenOut exprLenCfg (.leaf 0 n))
+    | some n => showO toString (exprLenOut exprLenCfg (.leaf 0 n 0))
     | none => "bad-op"
+  | ["exprlit", n, q] =>
+    -- a string literal of n characters, q of them apostrophes, measured by EXPRlength
+    match n.toNat?, q.toNat? with
+    | some n, some q =>
+      let dbl := decide (2 ≤ exprNameWriteFactor)
+      showO toString (exprLenOut exprLenCfg (.leaf (if dbl then 2 else 0) n (if dbl then min q n else 0)))
+    | _, _ => "bad-op"
   | ["casefn", fn, n] =>
     match n.toNat?, caseFns.lookup fn with
     | some n, some c => showO toString (loopOut c n)
